@@ -226,8 +226,9 @@ pub struct NetCase {
     /// never resolves (the usual production set-up): the graceful accept loop instead of the plain one
     #[serde(default)]
     pub graceful_never: bool,
-    /// the client's transport answers Pending from `poll_ready` (with a wake-up) this many times for
-    /// every connection it is asked to make
+    /// collaborators that are not ready at once: the client's transport answers Pending from
+    /// `poll_ready` (with a wake-up) `n % 3` times for every connection it is asked to make; every clone
+    /// of a server connection's service does so `n / 3 % 3` times
     #[serde(default)]
     pub transport_not_ready: u8,
     pub pool: Option<NetPool>,
@@ -657,6 +658,44 @@ struct SrvCtx {
     redirects: Vec<Option<usize>>,
     same_host: bool,
     tls: bool,
+    /// every clone of a connection's service answers Pending from `poll_ready` this many times
+    handler_not_ready: u8,
+}
+
+/// A connection's service that is not ready at once (each clone starts afresh): whoever drives it
+/// has to wait for `poll_ready` before `call`, as the `tower::Service` contract demands.
+struct LazyReady<S> {
+    inner: S,
+    template: u8,
+    left: u8,
+    obs: O,
+}
+impl<S: Clone> Clone for LazyReady<S> {
+    fn clone(&self) -> Self {
+        LazyReady { inner: self.inner.clone(), template: self.template, left: self.template, obs: self.obs.clone() }
+    }
+}
+impl<S, R> tower::Service<R> for LazyReady<S>
+where
+    S: tower::Service<R>,
+{
+    type Response = S::Response;
+    type Error = S::Error;
+    type Future = S::Future;
+    fn poll_ready(&mut self, cx: &mut Context<'_>) -> Poll<Result<(), Self::Error>> {
+        if self.left > 0 {
+            self.left -= 1;
+            cx.waker().wake_by_ref();
+            return Poll::Pending;
+        }
+        self.inner.poll_ready(cx)
+    }
+    fn call(&mut self, req: R) -> Self::Future {
+        if self.left > 0 {
+            self.obs.lock().unwrap().mismatches.push(format!("a connection's service was called although its poll_ready had not reported ready yet ({} Pending answers still to come)", self.left));
+        }
+        self.inner.call(req)
+    }
 }
 
 async fn handle(ctx: Arc<SrvCtx>, conn: usize, req: http::Request<hyperdriver::Body>) -> Result<http::Response<ChunkBody>, BoxError> {
@@ -882,7 +921,8 @@ macro_rules! start_server {
                 }
             }
             let ctx = ctx.clone();
-            async move { Ok::<_, std::convert::Infallible>(tower::service_fn(move |req: http::Request<hyperdriver::Body>| handle(ctx.clone(), conn, req))) }
+            let (template, obs4) = (ctx.handler_not_ready, ctx.obs.clone());
+            async move { Ok::<_, std::convert::Infallible>(LazyReady { inner: tower::service_fn(move |req: http::Request<hyperdriver::Body>| handle(ctx.clone(), conn, req)), template, left: template, obs: obs4 }) }
         });
         let srv = $builder.with_make_service(make).with_executor(CountingExec { obs: obs.clone(), server });
         let shutdown: Option<u64> = $shutdown;
@@ -1335,7 +1375,7 @@ pub fn run_net_case(case: &NetCase) -> Result<Obs, String> {
             for s in 0..nsrv {
                 let (client, incoming) = hyperdriver::stream::duplex::pair();
                 routes.push(client);
-                let ctx = Arc::new(SrvCtx { obs: obs.clone(), server: s, reqs: case.reqs.clone(), upgrades: case.reqs.iter().map(|r| is_upgrade(&case, r)).collect(), redirects: case.reqs.iter().map(|r| redirect_target(&case, r)).collect(), same_host: case.same_host, tls: case.tls });
+                let ctx = Arc::new(SrvCtx { obs: obs.clone(), server: s, reqs: case.reqs.clone(), upgrades: case.reqs.iter().map(|r| is_upgrade(&case, r)).collect(), redirects: case.reqs.iter().map(|r| redirect_target(&case, r)).collect(), same_host: case.same_host, tls: case.tls, handler_not_ready: (case.transport_not_ready / 3) % 3 });
                 let shutdown = case.shutdown.filter(|(srv, _)| *srv as usize % nsrv == s).map(|(_, ms)| ms as u64);
                 let on_acc = shutdown.and(case.shutdown_on_accept).map(|k| k as usize);
                 let base = hyperdriver::Server::builder::<hyperdriver::Body>().with_incoming(incoming);
